@@ -5,10 +5,26 @@ type HeicMeta struct {
 	idat idat
 	exif item
 	xml  item
+	// pending holds the entries of an iloc box that was read before iinf had
+	// assigned the ids
+	pending []item
 	// irot
 }
 
 type item struct {
 	id itemID
 	ol offsetLength
+}
+
+// resolve looks up the items named by iinf among the iloc entries that were
+// read before it.
+func (h *HeicMeta) resolve() {
+	for _, p := range h.pending {
+		if p.id == h.exif.id && h.exif.id != 0 && h.exif.ol == (offsetLength{}) {
+			h.exif.ol = p.ol
+		}
+		if p.id == h.xml.id && h.xml.id != 0 && h.xml.ol == (offsetLength{}) {
+			h.xml.ol = p.ol
+		}
+	}
 }
